@@ -2,6 +2,8 @@ package harness
 
 import (
 	"fmt"
+	"os"
+	"strings"
 
 	sdkmath "cosmossdk.io/math"
 	sdk "github.com/cosmos/cosmos-sdk/types"
@@ -90,8 +92,21 @@ func genC04Request(g *G, u, sink *Account) *Op {
 		est := estimateOut(p, in.Denom, out.Denom, amt)
 		// the chain's own quote on the committed state (what a front end shows the user): the plain pool output
 		// and, for oracle pools off their target weights, the nominal weight-recovery bonus on top of it
-		if q, err := g.W.App.AmmKeeper.SwapEstimation(g.W.ReadCtx(), &ammtypes.QuerySwapEstimationRequest{
-			Routes: []*ammtypes.SwapAmountInRoute{{PoolId: p.PoolId, TokenOutDenom: out.Denom}}, TokenIn: sdk.NewCoin(in.Denom, amt), Discount: sdkmath.LegacyZeroDec()}); err == nil && q.TokenOut.Amount.IsPositive() {
+		var q *ammtypes.QuerySwapEstimationResponse
+		qerr := safeCall(func() (e error) {
+			q, e = g.W.App.AmmKeeper.SwapEstimation(g.W.ReadCtx(), &ammtypes.QuerySwapEstimationRequest{
+				Routes: []*ammtypes.SwapAmountInRoute{{PoolId: p.PoolId, TokenOutDenom: out.Denom}}, TokenIn: sdk.NewCoin(in.Denom, amt), Discount: sdkmath.LegacyZeroDec()})
+			return e
+		})
+		if qerr != nil && strings.HasPrefix(qerr.Error(), "panic:") {
+			// the estimation query itself panicked (a query is not block processing; the same computation inside a
+			// transaction fails that transaction alone, and inside the end-blocker it is C18's business)
+			g.H.Labels["c04-quote-panicked"]++
+			if os.Getenv("VERIF_DEBUG_QUOTE") != "" {
+				fmt.Fprintf(os.Stderr, "QUOTE PANIC %v: pool %d assets %v in %s%s -> %s\n", qerr, p.PoolId, p.PoolAssets, amt, in.Denom, out.Denom)
+			}
+		}
+		if qerr == nil && q != nil && q.TokenOut.Amount.IsPositive() {
 			est = q.TokenOut.Amount
 			if q.WeightBalanceRatio.IsPositive() && g.Bool("c04/withinbonus") {
 				// a minimum between the plain output and output + nominal bonus
